@@ -182,7 +182,8 @@ def factory(scenario):
     script = SCRIPTS[scenario["script"]] if "script" in scenario else scenario["ops"]
     cfg = CONFIGS[scenario["cfg"]] if isinstance(scenario.get("cfg"), str) else scenario.get("cfg", {})
     return cfg, script, [_MON], {"max_steps": scenario.get("max_steps", 400),
-                                 "deviations": ("drop", "dup", "dupmid", "delay", "rebind", "late")}, goal
+                                 "deviations": tuple(scenario.get("dev", ("drop", "dup", "dupmid", "delay",
+                                                                          "rebind", "late")))}, goal
 
 
 netcheck.register("c01", factory)
@@ -256,6 +257,17 @@ def run(ctx):
     else:
         sc2 = scen
     agg2 = netcheck.explore_scenarios(ctx, "c01", sc2, 2, "sharp_scripts_d2", sig_extra=sig_extra)
+    # small flow-control windows: credit accounting under loss decides liveness
+    small = {}
+    for md in (2500, 4000):
+        small["small_window_up/md%d" % md] = {"ops": {"c": [W(0, 9000, True)]},
+                                             "cfg": {"s_max_data": md, "s_max_stream_data": md}}
+        small["small_window_both/md%d" % md] = {"ops": {"c": [W(0, 6000, True)], "s": [W(1, 6000, True)]},
+                                               "cfg": {"s_max_data": md, "s_max_stream_data": md,
+                                                       "c_max_data": md, "c_max_stream_data": md}}
+    for k in small:
+        small[k]["dev"] = ("drop", "delay")
+    netcheck.explore_scenarios(ctx, "c01", small, 2 if quick else 3, "small_windows", sig_extra=sig_extra)
     if not quick:
         cl = closure_scripts(2)
         netcheck.explore_scenarios(ctx, "c01", cl, 1, "closure_depth2_d1", sig_extra=sig_extra)
